@@ -139,7 +139,7 @@ def rule_done(ctx, M, u):
                 # `if let Ready(Some(..)) = ret` test can only take its Ready / Some edges
                 yb = good[0][0]
                 infeasible = flow.edges_contradicting(bi, t, yb, ("Ready", "Some"))
-                r3 = bi.body.reach([t2 for _, t2 in re], avoid_blocks=[s.block], stop_blocks=bi.return_blocks, avoid_edges=infeasible)
+                r3 = bi.reach_from_edges(re, avoid_blocks=[s.block], stop_blocks=bi.return_blocks, avoid_edges=infeasible)
                 okm = bool(infeasible) and not any(x in r3 for x in bi.return_blocks)
             okk = okk or (same and okm)
         elif a == c.idx and bi.guarded_by(s.block, re):
